@@ -12,7 +12,12 @@
    skip count carried by the logger (extraFrames, set by SetSkip / WithSkip) and hands the sum
    to runtime.Callers; the frame found there is what the record reports as `caller`.
 
-   The model is deliberately thin (a table, no interesting history): TLC enumerates the cells
+   This module is the TABLE component: one record of one freshly configured logger.  Histories of
+   logger configuration (several live loggers, WithSkip / SetSkip / New / With... / SetDefault in
+   any order, every live logger observed after every step) are CallerHist.tla, which instantiates
+   this module for the stack and the attributed frame (AttrD).
+
+   The table is deliberately thin (no history): TLC enumerates the cells
 
         entry point x format x logger kind x inlining x way the skip was given x skip x depth
 
